@@ -128,7 +128,10 @@ def ops_grid(cfgname):
 
     uni = "unicode-keys" in cfgname
     keys = {"hit": "h1", "miss": "m1", "num": "num", "txt": "txt", "bytes-key": b"h2", "illegal": "bad key",
-            "toolong": "k" * 251}
+            "toolong": "k" * 251,
+            # boundary keys: the empty key (legal exactly when a prefix makes the wire key non-empty), exactly at / one
+            # below the length limit (a prefix pushes them over), non-ASCII text (legal only with unicode keys)
+            "empty-str": "", "empty-bytes": b"", "at-limit": "k" * 250, "below-limit": b"k" * 248, "nonascii": "clé"}
     if uni:
         keys["unicode"] = "clé-☃"
     vals = [("bytes", b"value"), ("str", "text"), ("int", 42), ("nonascii-str", "naïve-☃"), ("crlf", b"a\r\nb")]
